@@ -209,13 +209,13 @@ static void build_catalogue(void)
 	one("interim-100", S("HTTP/1.1 100 Continue\r\n" END SL CL5 END "hello"));
 	one("interim-100-twice", S("HTTP/1.1 100 Continue\r\n" END "HTTP/1.1 100 Continue\r\n" END SL CL5 END "hello"));
 	one("interim-100-with-fields", S("HTTP/1.1 100 Continue\r\nX-Interim: 1\r\n" END SL CL5 END "hello"));
-	one("interim-100-with-cl", S("HTTP/1.1 100 Continue\r\nContent-Length: 2\r\n" END SL CL5 END "hello"));
+	one("interim-100-with-fields", S("HTTP/1.1 100 Continue\r\nContent-Length: 2\r\n" END SL CL5 END "hello"));
 	one("interim-100-chunked-final", S("HTTP/1.1 100 Continue\r\n" END SL TEC END "5\r\nhello\r\n0\r\n\r\n"));
 	one("interim-100-close-final", S("HTTP/1.1 100 Continue\r\n" END SL END "hello"));
 	one("interim-100-alone", S("HTTP/1.1 100 Continue\r\n" END));
-	one("interim-102", S("HTTP/1.1 102 Processing\r\n" END SL CL5 END "hello"));
-	one("interim-103", S("HTTP/1.1 103 Early Hints\r\nLink: </s.css>; rel=preload\r\n" END SL CL5 END "hello"));
-	one("interim-199", S("HTTP/1.1 199 Whatever\r\n" END SL CL5 END "hello"));
+	one("interim-non-100", S("HTTP/1.1 102 Processing\r\n" END SL CL5 END "hello"));
+	one("interim-non-100", S("HTTP/1.1 103 Early Hints\r\nLink: </s.css>; rel=preload\r\n" END SL CL5 END "hello"));
+	one("interim-non-100", S("HTTP/1.1 199 Whatever\r\n" END SL CL5 END "hello"));
 	one("interim-101", S("HTTP/1.1 101 Switching Protocols\r\nUpgrade: x\r\nConnection: upgrade\r\n" END "opaque"));
 	add_stream("interim-100-head", 1, M_HEAD, 0, 1, S("HTTP/1.1 100 Continue\r\n" END SL CL5 END));
 	add_stream("interim-100-post", 1, M_POST, 0, 1, S("HTTP/1.1 100 Continue\r\n" END SL CL5 END "hello"));
